@@ -2607,14 +2607,15 @@ theorem C08_canonical_short (t r : Str) (ns ew : Char) (ht : ∀ c ∈ t, c.isDi
     twprgeNaturalToShort (canonText t ns r ew) = t ++ lowerChar ns :: (r ++ [lowerChar ew]) := by
   have hdt := isDigits_of_isDigit ht
   have hdr := isDigits_of_isDigit hr
-  have hdec : Gen.inl_unpackers_twprge_natural_to_short_0 = .chr Gen.cs_060883fe := rfl
+  -- any spelling of the deleter (`[rt-]`, `[rt-]+`, `[rt-]*`)
+  have hdec : DeletesClass Gen.cs_060883fe Gen.inl_unpackers_twprge_natural_to_short_0 := by constructor
   have hl : pyLower (canonText t ns r ew) = 't' :: (t ++ lowerChar ns :: '-' :: 'r' :: (r ++ [lowerChar ew])) := by
     have e : canonText t ns r ew = ['T'] ++ (t ++ ([ns, '-', 'R'] ++ (r ++ [ew]))) := by simp [canonText]
     have hp : ∀ a b : Str, pyLower (a ++ b) = pyLower a ++ pyLower b := fun a b => by simp [pyLower]
     rw [e, hp, hp, hp, hp, pyLower_digits t hdt, pyLower_digits r hdr]
     rcases hns with rfl | rfl <;> rcases hew with rfl | rfl <;> simp [pyLower, pyLowerChar, lowerChar]
   unfold twprgeNaturalToShort
-  rw [hl, hdec, sub_chr_nil]
+  rw [hl, hdec.sub_nil]
   have ft := filter_digits_id Gen.cs_060883fe (by decide) t hdt
   have fr := filter_digits_id Gen.cs_060883fe (by decide) r hdr
   have m1 : Gen.cs_060883fe.mem 't' = true ∧ Gen.cs_060883fe.mem '-' = true ∧ Gen.cs_060883fe.mem 'r' = true ∧ Gen.cs_060883fe.mem 'n' = false ∧
